@@ -6,10 +6,10 @@ From CKT Require Import Common.Base Common.Circ Model.Decompose.
            map_ids (None = omitted), canonical implementation result (instruction list, size of the new
            final register), input_untouched)
    input_untouched is computed by the harness: canonical form, registers and bit counts of the INPUT
-   circuit after the call equal those before it; it is `true` by convention for inplace=True calls
-   and for calls that raised. *)
+   circuit after the call equal those before it (checked for every inplace=False call, also when the
+   call raised); it is `true` by convention for inplace=True calls.  map ids are Python ints (Z). *)
 Definition c14_case : Type :=
-  benv * circ * nat * list (list nat) * option (list nat) * res (circ * nat) * bool.
+  benv * circ * nat * list (list nat) * option (list Z) * res (circ * nat) * bool.
 
 Definition chk_decompose (c : c14_case) : bool :=
   let '(env, ci, nc, ids, maps, e, untouched) := c in
